@@ -374,6 +374,8 @@ def run_today_real(shard, ctx):
 
 
 def run_shard(shard, ctx):
+    if isinstance(shard, dict) and 'dateonly' in shard:
+        return run_dateonly(ctx, shard['n'])
     if isinstance(shard, dict) and 'mixed' in shard:
         from ..mixed import run_mixed
         return run_mixed(ctx, ID, shard['n'])
@@ -405,6 +407,47 @@ def finish(r, tier, seed):
                                      if tier == 'thorough' else [])}
 
 
+def run_dateonly(ctx, books):
+    """date-only values (datetime.date): cells of a workbook that stores its dates in ISO 8601 form and overrides - the same calendar
+    answers as for the date-time at their midnight"""
+    import datetime as dt
+    from .. import wbspec
+    from ..refcheck import judge_book
+    r, rng = ctx.r, ctx.rng
+    d0 = dt.date(2023, 11, 20)
+    for b in range(books):
+        cells = {}
+        for i in range(1, 9):
+            cells[f'A{i}'] = d0 + dt.timedelta(days=rng.randrange(0, 500))
+            cells[f'B{i}'] = dt.datetime(2024, 1, 1) + dt.timedelta(days=rng.randrange(0, 700), hours=rng.choice([0, 0, 13]))
+            cells[f'C{i}'] = dt.date(2024, rng.randrange(1, 13), rng.randrange(1, 13))          # holidays, day <= 12
+        targets = []
+        row = 1
+        for i in range(1, 9):
+            for f in (f'=YEAR(A{i})*10000+MONTH(A{i})*100+DAY(A{i})', f'=MONTH(C{i})*100+DAY(C{i})', f'=EDATE(A{i},{rng.randrange(-14, 15)})', f'=EOMONTH(A{i},{rng.randrange(-3, 14)})',
+                      f'=DATEDIF(A{i},B{i},"{rng.choice(["D", "M", "Y", "YM"])}")', f'=NETWORKDAYS(A{i},B{i})', f'=NETWORKDAYS(A{i},B{i},C1:C8)', f'=A{i}<B{i}',
+                      f'=DAY(EOMONTH(C{i},0))', f'=DATEDIF(C{i},A{i},"D")', f'=YEAR(EDATE(C{i},12))'):
+                a = wbspec.a1(row, 6)
+                row += 1
+                cells[a] = f
+                targets.append((0, a))
+        spec = wbspec.spec(wbspec.sheet('D', cells))
+        spec['iso_dates'] = True
+        vals = [[]]
+        for _ in range(6):
+            ov = []
+            for i in rng.sample(range(1, 9), 4):
+                # day <= 12 and day != month: a day-first / month-first confusion cannot hide
+                m_ = rng.randrange(1, 13)
+                d_ = rng.choice([x for x in range(1, 13) if x != m_])
+                ov.append((0, f'A{i}', dt.date(rng.choice([2023, 2024, 2100]), m_, d_)))
+            ov.append((0, f'C{rng.randrange(1, 9)}', dt.date(2024, rng.randrange(1, 13), rng.randrange(1, 29))))
+            vals.append(ov)
+        r.count('date_only_books')
+        judge_book(ctx, ID, spec, targets, vals, exact=True, name=f'do{b}', monitor='date-only-values', nontrivial=lambda case, outs: True)
+
+
 def plan(tier, seed):
     # 'mixed': nests over the whole function set that use at least one function of this property (vf/mixed.py)
-    return _plan(tier, seed) + [{'mixed': k, 'n': 3 if tier == 'quick' else 60} for k in range(3 if tier == 'quick' else 8)]
+    return _plan(tier, seed) + [{'mixed': k, 'n': 3 if tier == 'quick' else 60} for k in range(3 if tier == 'quick' else 8)] + \
+        [{'dateonly': k, 'n': 2 if tier == 'quick' else 40} for k in range(2 if tier == 'quick' else 6)]
